@@ -305,6 +305,15 @@ Definition str_pcmp (x y : list Z) : option comparison := Some (str_cmp x y).
 Definition str_hasht : hasht (list Z) :=
   Hasht (fun s => [TStr s]) (provided_hash_slice (fun s => [TStr s])).
 
+(* Kv { k: u8, v: u8 } (code 256 k + v): == compares both fields, partial_cmp / cmp only the key --
+   an element type whose equality is finer than its ordering; #[derive(Hash)]: write_u8(k); write_u8(v) *)
+Definition kv_eq (x y : Z) : bool := x =? y.
+Definition kv_cmp (x y : Z) : comparison := (x / 256) ?= (y / 256).
+Definition kv_pcmp (x y : Z) : option comparison := Some (kv_cmp x y).
+Definition kv_hasht : hasht Z :=
+  Hasht (fun c => [TCall 1 [c / 256]; TCall 1 [c mod 256]])
+        (provided_hash_slice (fun c => [TCall 1 [c / 256]; TCall 1 [c mod 256]])).
+
 (* nested GenericArray<u8, U2> elements: the impls above, one level down *)
 Definition nest_eq : garr Z -> garr Z -> bool := ga_eq int_eq.
 Definition nest_pcmp : garr Z -> garr Z -> option comparison := ga_partial_cmp int_pcmp.
